@@ -252,6 +252,19 @@ def build(tape, prop, tier):
     elif prop in ("C08", "C04") and tape.chance(0.05):
         s["motif"] = "liqreject"
         apply_motif(s, tape)
+    elif prop == "C10" and len(s["bases"]) >= 2 and tape.chance(0.08):
+        s["motif"] = "pricejump"
+        apply_motif(s, tape)
+    # a second bar source for the first pair with bars twice as long (1 h and 2 h bars of one pair on one exchange):
+    # every other instant two bars of that pair end together
+    s["coarse"] = (not s["motif"]) and tape.chance(0.12)
+    # one of the other pairs ticks more slowly (daily next to hourly bars): its bars are `span` units long, end on
+    # multiples of `span`, and so begin before bars of the faster pairs that were delivered earlier
+    s["slow"] = None
+    if not s["motif"] and ntot >= 2 and tape.chance(0.15):
+        s["slow"] = dict(pair=1 + tape.draw(ntot - 1), span=tape.choice([2, 3, 6]))
+    # fault: the user-supplied fee strategy raises once, the n-th time the exchange consults it while processing a bar
+    s["flaky_fee"] = (1 + tape.draw(8)) if (not s["motif"] and tape.chance(0.08)) else s.pop("flaky_fee_motif", 0)
     return s
 
 
@@ -291,6 +304,46 @@ def apply_motif(s, tape):
         s["scripts"] = {kk: v for kk, v in s["scripts"].items() if not kk.startswith("bar:0:")}
         second = order_op(otype=tape.choice(["market", "stop"]), side="sell", amt_kind="abs", abs=str(D(1 + tape.draw(4))), stp=8)
         s["scripts"][f"bar:0:{k}"] = [order_op(otype="market", side="buy", amt_kind="abs", abs="10.00"), second]
+        return
+    if s["motif"] == "pricejump":
+        # the collateral's price jumps in one bar, and in the very same instant - from the handler of another pair's bar -
+        # the account asks for about as much as its equity allows at the new price (optionally the bar that carries the
+        # jump is the one during which the user's fee strategy raises)
+        b0 = s["bases"][0]
+        s["prec"][b0] = 2
+        s["prec"][QUOTE] = 2
+        s["pair_info"] = {}
+        s["hp"] = False
+        if s["fee"]["kind"] == "received":
+            s["fee"] = dict(kind="none", pct="0", min="0")
+        s["lend"] = dict(default=dict(cond, margin_requirement=tape.choice(["0.5", "0.25", "1"])), per_symbol={},
+                         refuse_after=None)
+        s["reuse_lender"] = False
+        s["offgrid_loans"] = False
+        s["offgrid_init"] = False
+        s["inv"] = None
+        s["cross"] = False
+        s["prec"].pop("ZZZ", None)
+        s["bars"] = s["bars"][:len(s["bases"])]
+        s["init"] = {b0: "10.00"}
+        s["ts_mode"] = "shared"
+        j = 2 + tape.draw(3)
+        n = j + 3
+        f = tape.choice([50, 70, 130, 160])
+        s["bars"][0] = [dict(k=k, o=10000, h=10000, l=10000, c=10000, v="1000") for k in range(j)] + \
+                       [dict(k=k, o=100 * f, h=100 * f, l=100 * f, c=100 * f, v="1000") for k in range(j, n)]
+        for pi in range(1, len(s["bars"])):
+            rows = (s["bars"][pi] * n)[:n]
+            s["bars"][pi] = [dict(r, k=k) for k, r in enumerate(rows)]
+        s["jobs"] = []
+        s["oe_every"] = 0
+        s["sig_every"] = 0
+        s["scripts"] = {}
+        s["scripts"][f"bar:1:{j}"] = [dict(kind="loan", yields=0, sleep=0, sym=0, amt_kind="edge", amt=tape.draw(1000),
+                                           symname=QUOTE)]
+        if tape.chance(0.5):
+            s["scripts"][f"bar:0:{j - 1}"] = [order_op(otype="market", side="sell", amt_kind="abs", abs="1.00")]
+            s["flaky_fee_motif"] = 1
         return
     if s["motif"] == "arveto":
         # two loans in the base symbol, the older one with a lot of accrued interest, a third loan elsewhere, and an
